@@ -96,6 +96,11 @@ func DeclareView(ctx context.Context, scope *ReferenceScope, expr parser.ViewDec
 }
 
 func Select(ctx context.Context, scope *ReferenceScope, query parser.SelectQuery) (*View, error) {
+	return selectQuery(ctx, scope, query, false)
+}
+
+// selectQuery executes a select query. recursionRoot is true only for the query of a recursive table itself.
+func selectQuery(ctx context.Context, scope *ReferenceScope, query parser.SelectQuery, recursionRoot bool) (*View, error) {
 	var intoVars []parser.Variable = nil
 	if selectEntity, ok := query.SelectEntity.(parser.SelectEntity); ok && selectEntity.IntoClause != nil {
 		intoClause := selectEntity.IntoClause.(parser.IntoClause)
@@ -111,6 +116,7 @@ func Select(ctx context.Context, scope *ReferenceScope, query parser.SelectQuery
 	}
 
 	queryScope := scope.CreateNode()
+	queryScope.recursionRoot = recursionRoot
 
 	if query.WithClause != nil {
 		if err := queryScope.LoadInlineTable(ctx, query.WithClause.(parser.WithClause)); err != nil {
@@ -240,7 +246,7 @@ func selectSet(ctx context.Context, scope *ReferenceScope, set parser.SelectSet,
 		return nil, err
 	}
 
-	if scope.RecursiveTable != nil {
+	if scope.RecursiveTable != nil && scope.recursionRoot {
 		scope.RecursiveTmpView = nil
 		err := selectSetForRecursion(ctx, scope, lview, set, forUpdate)
 		if err != nil {
